@@ -13,7 +13,9 @@ obliges the table regenerated from /repo's current source to be this one. Where 
   count, for every staying segment) are not part of the model — a reader is modelled as "the live documents of the root" —
   so the statement is pinned here and the harness reads stored fields per hit on every root built by `introduceMerge`.
 * `introducePersist`: `persistLoop` keeps `deleted := ss.deleted` and the position.
-* `introduceSegment`: `introSegStep`: `deleted := if ss.deleted.isEmpty then delta else Bitmap.or ss.deleted delta` (pure), kept iff
+* `introduceSegment`: `introSegStep`: `match obs.lookup ss.sid with | some d => d | none => docsMatching ss.docs ids` — the
+  fallback lookup is guarded by exactly `!ok`, whatever the segment is (a merge product is a PERSISTED segment with a fresh id
+  that no batch prepared before its introduction has in its obsoletes map); `deleted := if ss.deleted.isEmpty then delta else Bitmap.or ss.deleted delta` (pure), kept iff
   `0 < liveSize`.
 * `persistSnapshotMaybeMerge` / `mergeSegmentBases`: `inMemSegs`, `MergeTask.plan sbs id false` (every input in `old`, table i
   for input i), `equivSnapshot` (`epoch := snapshot.epoch`, not-merged segments kept, the new one with `deleted := []`).
@@ -53,6 +55,9 @@ def expectedFacts : List (String × String) := [
   ("introducePersist", "deleted: segSnapshot.deleted"),
   ("introducePersist", "newIndexSnapshot.offsets[i] = root.offsets[i]"),
   ("introduceSegment", "epoch: introduceSnapshotEpoch"),
+  ("introduceSegment", "delta, ok := next.obsoletes[root.segment[i].id]"),
+  ("introduceSegment", "if !ok"),
+  ("introduceSegment", "delta, err = root.segment[i].segment.DocsMatchingTerms(next.idTerms)"),
   ("introduceSegment", "if root.segment[i].deleted == nil"),
   ("introduceSegment", "newss.deleted = delta"),
   ("introduceSegment", "newss.deleted = roaring.Or(root.segment[i].deleted, delta)"),
